@@ -6,18 +6,24 @@
 name: str_init
 define: VP=str, U_INIT
 src: str.c, obj.c
+native: str
+native_includes: str.c
 enforce: spif_str_init
 */
 /*@unit
 name: ustr_init
 define: VP=ustr, U_INIT
 src: ustr.c, obj.c
+native: str
+native_includes: ustr.c
 enforce: spif_ustr_init
 */
 /*@unit
 name: str_init_from_ptr
 define: VP=str, U_INIT_FROM_PTR
 src: str.c, obj.c
+native: str
+native_includes: str.c
 enforce: spif_str_init_from_ptr
 backend: sat
 timeout: 200
@@ -26,6 +32,8 @@ timeout: 200
 name: ustr_init_from_ptr
 define: VP=ustr, U_INIT_FROM_PTR
 src: ustr.c, obj.c
+native: str
+native_includes: ustr.c
 enforce: spif_ustr_init_from_ptr
 backend: sat
 timeout: 200
@@ -34,6 +42,8 @@ timeout: 200
 name: str_init_from_buff
 define: VP=str, U_INIT_FROM_BUFF
 src: str.c, obj.c
+native: str
+native_includes: str.c
 enforce: spif_str_init_from_buff
 backend: sat
 timeout: 200
@@ -42,6 +52,8 @@ timeout: 200
 name: ustr_init_from_buff
 define: VP=ustr, U_INIT_FROM_BUFF
 src: ustr.c, obj.c
+native: str
+native_includes: ustr.c
 enforce: spif_ustr_init_from_buff
 backend: sat
 timeout: 200
@@ -50,6 +62,8 @@ timeout: 200
 name: str_init_from_buff.negsize
 define: VP=str, U_INIT_FROM_BUFF_NEG
 src: str.c, obj.c
+native: str
+native_includes: str.c
 enforce: spif_str_init_from_buff
 backend: sat,z3
 timeout: 200
@@ -58,6 +72,8 @@ timeout: 200
 name: ustr_init_from_buff.negsize
 define: VP=ustr, U_INIT_FROM_BUFF_NEG
 src: ustr.c, obj.c
+native: str
+native_includes: ustr.c
 enforce: spif_ustr_init_from_buff
 backend: sat,z3
 timeout: 200
@@ -66,6 +82,8 @@ timeout: 200
 name: str_init_from_num
 define: VP=str, U_INIT_FROM_NUM
 src: str.c, obj.c
+native: str
+native_includes: str.c
 enforce: spif_str_init_from_num
 backend: sat,z3
 timeout: 200
@@ -74,6 +92,8 @@ timeout: 200
 name: ustr_init_from_num
 define: VP=ustr, U_INIT_FROM_NUM
 src: ustr.c, obj.c
+native: str
+native_includes: ustr.c
 enforce: spif_ustr_init_from_num
 backend: sat,z3
 timeout: 200
